@@ -5,6 +5,7 @@ package main
 
 import (
 	"fmt"
+	"reflect"
 	"regexp"
 	"sort"
 	"strconv"
@@ -246,9 +247,24 @@ func (w *world) resolve(id int, f *ggql.Field, args map[string]interface{}) (int
 		}
 		return v, es
 	case "echo":
-		return args["a"+strconv.Itoa(b.k)], nil
+		// a resolver of the model's world hands back Go ints (GInt), also when it echoes an Int argument
+		return echoValue(args["a"+strconv.Itoa(b.k)]), nil
 	}
 	return nil, nil
+}
+
+func echoValue(v interface{}) interface{} {
+	switch t := v.(type) {
+	case int32:
+		return int(t)
+	case []interface{}:
+		out := make([]interface{}, len(t))
+		for i, x := range t {
+			out[i] = echoValue(x)
+		}
+		return out
+	}
+	return v
 }
 
 type anyRes struct{ w *world }
@@ -654,6 +670,14 @@ func canonData(v interface{}) sx.S {
 			out = append(out, canonData(x))
 		}
 		return out
+	case []string, []int, []bool:
+		// typed slices only reach "data" unconverted (depth budget exhausted)
+		rv := reflect.ValueOf(t)
+		out := []sx.S{"l"}
+		for i := 0; i < rv.Len(); i++ {
+			out = append(out, canonData(rv.Index(i).Interface()))
+		}
+		return out
 	case map[string]interface{}:
 		type kv struct {
 			n int
@@ -858,7 +882,20 @@ func execSetup(secs []sx.S) (*ggql.Root, *world, sx.S) {
 	return root, w, nil
 }
 
+// withMaxDepth sets the depth budget of the run (ggql.MaxResolveDepth, a package variable: the
+// harness runs its cases one after the other) and returns the function that restores it
+func withMaxDepth(secs []sx.S) func() {
+	md := section(secs, "maxdepth")
+	if len(md) != 1 {
+		return func() {}
+	}
+	old := ggql.MaxResolveDepth
+	ggql.MaxResolveDepth = sx.Int(md[0])
+	return func() { ggql.MaxResolveDepth = old }
+}
+
 func execRunDoc(secs []sx.S, root *ggql.Root, w *world) (obs sx.S) {
+	defer withMaxDepth(secs)()
 	text, order := docText(section(secs, "doc"))
 	defer func() {
 		if r := recover(); r != nil {
